@@ -27,9 +27,9 @@ func edsReconcile(r *Run) (*ssa.Function, map[*ssa.Function]bool) {
 
 // decisionSite describes how status.activeReplicaSet is derived.
 type decisionSite struct {
-	decision *ssa.Function        // the function whose result names the active replica set
-	call     *ssa.Call            // its call site
-	caller   *ssa.Function        // function containing the call
+	decision *ssa.Function             // the function whose result names the active replica set
+	call     *ssa.Call                 // its call site
+	caller   *ssa.Function             // function containing the call
 	roles    map[string]*ssa.Parameter // "daemonset", "active", "upToDate", "now" parameters of decision
 }
 
